@@ -304,6 +304,107 @@ def run_enumerated(S, tier, r):
     r.bounds["enumerated_devices_len7"] = [list(d) for d in devs]
 
 
+TWO_MAIN = r"""
+#include <stdio.h>
+#include <stdlib.h>
+#include <string.h>
+#include <stdint.h>
+#include <unistd.h>
+#include <sys/wait.h>
+#include "ecu_can.h"
+#include "bms_can.h"
+static void send_cb(const CanFrame *f) { printf(" %%u", (unsigned)f->id); }
+int main(void) {
+    char line[4096];
+    while (fgets(line, sizeof line, stdin)) {
+        fflush(stdout);
+        pid_t pid = fork();
+        if (pid == 0) {
+            %(ecu)s ecu; memset(&ecu, 0, sizeof ecu);
+            %(bms)s bms; memset(&bms, 0, sizeof bms);
+            uint32_t t = 0;
+            char *tok = strtok(line, " \n");
+            printf("H");
+            while (tok) {
+                unsigned long long d; char order;
+                sscanf(tok, "%%llu:%%c", &d, &order);
+                t += (uint32_t)d;
+                if (order == 'e') { printf(" |e"); %(ecu_s)s(&ecu, t, send_cb); printf(" |b"); %(bms_s)s(&bms, t, send_cb); }
+                else { printf(" |b"); %(bms_s)s(&bms, t, send_cb); printf(" |e"); %(ecu_s)s(&ecu, t, send_cb); }
+                tok = strtok(NULL, " \n");
+            }
+            printf("\n"); fflush(stdout); _exit(0);
+        }
+        int st; waitpid(pid, &st, 0);
+        if (!WIFEXITED(st) || WEXITSTATUS(st) != 0) printf("CRASH\n");
+    }
+    return 0;
+}
+"""
+
+
+def run_two_devices(S, tier):
+    """Two devices in one executable: each scheduler keeps its OWN state, so calling both with the same
+    timestamp (in either order) must make each behave as if it were alone."""
+    from fcp.parser import get_fcp_from_string
+    from fcp.error import Logger
+
+    L = 4 if tier == "quick" else 5
+    for pe, pb in (((2,), (2,)), ((3,), (2, 5)), ((1, -1), (3,))):
+        lines = ['version: "3"']
+        for dev, ps, base in (("ecu", pe, 100), ("bms", pb, 200)):
+            for i, p in enumerate(ps):
+                lines.append("struct %s%d { v @0: u8, }" % (dev.capitalize(), i))
+                lines.append('impl can for %s%d { id: %d, device: "%s", period: %d, }' % (dev.capitalize(), i, base + i, dev, p))
+        text = "\n".join(lines) + "\n"
+        wd = tempfile.mkdtemp(prefix="fcpmc-c19t-")
+        try:
+            fcp = get_fcp_from_string(text, Logger({})).unwrap()
+            files = cbuild.generate_c(fcp, wd)
+            ie, ib = cbuild.parse_header(files["ecu_can.h"]), cbuild.parse_header(files["bms_can.h"])
+            main_c = TWO_MAIN % {"ecu": ie["scheduler"][1], "bms": ib["scheduler"][1], "ecu_s": ie["scheduler"][0], "bms_s": ib["scheduler"][0]}
+            open(os.path.join(wd, "main2.c"), "w").write(main_c)
+            exe = os.path.join(wd, "two")
+            p = subprocess.run(["gcc"] + cbuild.CC_FLAGS + ["-I", wd, "-o", exe, os.path.join(wd, "main2.c"), os.path.join(wd, "ecu_can.c"), os.path.join(wd, "bms_can.c"), os.path.join(wd, "can_signal_parser.c")], stdout=subprocess.PIPE, stderr=subprocess.PIPE, text=True)
+            inp0 = {"text": text, "periods": {"ecu": list(pe), "bms": list(pb)}}
+            if p.returncode != 0:
+                S.violation("C19.build", "C19.build/two-devices-do-not-link", inp0, expected="links", actual=p.stderr[-800:])
+                continue
+            D = delta_alphabet(pe + pb)
+            hists = [tuple(zip(h, o)) for h in itertools.product(D, repeat=L) for o in (("e",) * L, ("b",) * L, tuple("eb"[k % 2] for k in range(L)))]
+            inp_lines = [" ".join("%d:%s" % (d, o) for d, o in h) for h in hists]
+            r = subprocess.run([exe], input="\n".join(inp_lines) + "\n", stdout=subprocess.PIPE, text=True, timeout=3600)
+            outl = r.stdout.strip().split("\n")
+            if len(outl) != len(hists):
+                S.violation("C19.run", "C19.run/harness-output-mismatch", inp0, expected=len(hists), actual=len(outl))
+                continue
+            for h, ol in zip(hists, outl):
+                S.count("executions")
+                S.count("states")
+                S.count("transitions")
+                S.count("two_device_histories")
+                se, sb = refsched.Sched(list(pe)), refsched.Sched(list(pb))
+                t = 0
+                calls = ol.split("|")[1:]
+                got = {"e": [], "b": []}
+                for c in calls:
+                    got[c[0]].append([int(x) for x in c[1:].split()])
+                exp = {"e": [], "b": []}
+                for d, _o in h:
+                    t = (t + d) % refsched.M32
+                    exp["e"].append([100 + i for i in se.call(t)])
+                    exp["b"].append([200 + i for i in sb.call(t)])
+                if any(got["e"]) or any(got["b"]):
+                    S.add("nontrivial", ("two", pe, pb, h))
+                if got != exp:
+                    S.add("outcomes", "two-differs")
+                    S.violation("C19.schedule", "C19.schedule/devices-in-one-program-interfere", dict(inp0, ops=["t+=%d order=%s" % (d, o) for d, o in h]), expected=exp, actual=got)
+                    break
+                S.add("outcomes", ("two", tuple(len(x) for x in exp["e"])))
+        finally:
+            shutil.rmtree(wd, ignore_errors=True)
+
+
 def run(tier):
     common.bind_repo()
     r = Run("C19", tier)
@@ -311,6 +412,7 @@ def run(tier):
     r.bounds = {"devices": len(devs), "history_length": 5, "period_alphabet": [str(p) for p in PERIOD_ALPHABET], "delta_alphabet": "{0,1} U {P-1,P,P+1,2P} U {2^32-3}; first delta may also be 2^32-2"}
     for s in pmap(make_worker(tier), chunks(devs, 1)):
         r.stats.merge(s)
+    run_two_devices(r.stats, tier)
     if tier != "quick":
         run_enumerated(r.stats, tier, r)
     r.rule = (
